@@ -422,6 +422,25 @@ func TestVerif_C01(t *testing.T) {
 			r.Pass(id)
 		}
 	}
+	// stream churn on a busy session: both sides are inside large writes over connections with bounded
+	// windows while each closes the stream the other is writing to; no connection fails and nobody
+	// closes the session, so it must keep working (scenario shared with C03)
+	for i := 0; i < r.Pick(8, 120); i++ {
+		id := fmt.Sprintf("churn-%d", i)
+		if !r.Mine(id) {
+			continue
+		}
+		cfg := rigCfg{Method: methods[i%4], NumConn: 1 + (i/2)%4, Seg: "all", Window: []int{4096, 16384, 65536}[i%3], Procs: []int{2, 4, 16}[i%3]}
+		r.Case(id, cfg)
+		k, d := c03CrossClose(t, r, id, cfg, []int{200000, 1 << 20}[i%2])
+		r.Distinct("cases", vk.Hash64("churn", cfg, i))
+		r.Count("churn_cases", 1)
+		if k == "write-blocked" || k == "session-stalled" || k == "panic" {
+			r.Violation(id, "C01:session-stalled", fmt.Sprintf("%s (%s); stream churn on a healthy session, cfg %+v", d, k, cfg), cfg)
+		} else {
+			r.Pass(id)
+		}
+	}
 	// forced interleaving: sends while addConn is between publishing the count and storing the conn
 	for i := 0; i < r.Pick(4, 16); i++ {
 		id := fmt.Sprintf("forced-addconn-%d", i)
